@@ -79,6 +79,10 @@ type Node struct {
 	Prepend string // Process.Prepend (a launcher such as "nice -n 10")
 	PadTo   int
 	GlueIn  bool // in-path placeholders glued to an option: -i={i:x}
+	// TagArgs: "port.key" names of tags (scipipe qualifies a task's tags with the
+	// in-port they arrived on) whose values the command receives through
+	// {t:port.key} placeholders (as -p tg_<port>_<key>=<value>: they enter the result)
+	TagArgs []string
 	// TagGroups > 0 (MapToTags): the tag value is one of that many group names
 	// (a function of the path) instead of a value unique to the file;
 	// GroupBy (Concatenator): GroupByTag
